@@ -30,7 +30,7 @@ ASSUMPTIONS = [
 
 
 def budget(tier):
-    return {"examples": 500 if tier == "quick" else 6000}
+    return {"examples": 1000 if tier == "quick" else 8000}
 
 
 def strategy(tier):
